@@ -102,7 +102,8 @@ def main():
         n = int(rng.integers(2, 12))
         vals = list(rng.choice(VALUES, size=int(rng.integers(2, 6)), replace=False))
         df = pd.DataFrame({f'f{i}': [str(rng.choice(vals)) for _ in range(n)] for i in range(ncols)})
-        df['label'] = [str(rng.integers(0, 2)) for _ in range(n)]
+        # the label column sits anywhere in the frame (first, in the middle, last)
+        df.insert(int(rng.integers(0, ncols + 1)), 'label', [str(rng.integers(0, 2)) for _ in range(n)])
         for order in (2, 3, 4):
             if order > ncols:
                 # no candidate at all: the frame comes back unchanged (all rows, no new column)
